@@ -396,3 +396,68 @@ Lemma fiber_decisions p idem cl0 plan outs tr r :
   fiber p idem cl0 plan outs = (tr, r) ->
   attempt_decisions tr = decide_history (new_session p) (attempt_infos idem tr).
 Proof. intros H. apply fiber_Exec in H. exact (Exec_decisions _ _ _ _ _ _ _ _ H). Qed.
+
+(* -- cutting a fiber short (client timeout, a speculative fiber dropped) adds no attempt ------------ *)
+Lemma finish_not_pending (last : option last_err) : @finish N last <> RPending.
+Proof. destruct last; discriminate. Qed.
+
+(* a pending (cancelled) run is a PREFIX of every longer run: cutting a fiber short adds no attempt *)
+Lemma Exec_pending_prefix idem (plan : list N) s cl last outs tr r :
+  Exec decide idem plan s cl last outs tr r -> r = RPending ->
+  forall more, exists tr' r', Exec decide idem plan s cl last (outs ++ more) (tr ++ tr') r'.
+Proof.
+  induction 1 as [ s cl last outs | t rest s cl last | t rest s cl last outs tr r H IH
+                 | t rest s cl last outs | t rest s cl last e outs s' nc tr r E H IH
+                 | t rest s cl last e outs s' nc tr r E H IH
+                 | t rest s cl last e outs s' E | t rest s cl last e outs s' E ];
+    intros Hr more; try discriminate Hr.
+  - exfalso. exact (finish_not_pending _ Hr).
+  - cbn [app]. eexists _, _. apply fn_Exec.
+  - destruct (IH Hr more) as [tr' [r' H']]. exists tr', r'. cbn [app]. now constructor.
+  - destruct (IH Hr more) as [tr' [r' H']]. exists tr', r'. cbn [app]. eapply Ex_same; eassumption.
+  - destruct (IH Hr more) as [tr' [r' H']]. exists tr', r'. cbn [app]. eapply Ex_next; eassumption.
+Qed.
+
+Lemma fiber_pending_prefix p idem cl0 plan outs tr :
+  fiber p idem cl0 plan outs = (tr, RPending) ->
+  forall more, exists tr' r', fiber p idem cl0 plan (outs ++ more) = (tr ++ tr', r').
+Proof.
+  intros H more. apply fiber_Exec in H.
+  destruct (Exec_pending_prefix _ _ _ _ _ _ _ _ H eq_refl more) as [tr' [r' H']].
+  exists tr', r'. now apply fiber_Exec.
+Qed.
+
+(* -- the outcome stream of a finished run can be read off its trace ------------------------------- *)
+(* the outcome stream a trace was produced from, read off the trace: one outcome per event *)
+Definition outs_of_trace (tr : list (event N)) : list outcome :=
+  map (fun ev => match ev with
+                 | EvConnFail _ => OConnFail
+                 | EvAttempt _ _ AOk => OSuccess
+                 | EvAttempt _ _ (AErr e _) => OError e
+                 end) tr.
+
+Lemma Exec_canonical_outs idem (plan : list N) s cl last outs tr r :
+  Exec decide idem plan s cl last outs tr r -> r <> RPending ->
+  Exec decide idem plan s cl last (outs_of_trace tr) tr r.
+Proof.
+  induction 1 as [ s cl last outs | t rest s cl last | t rest s cl last outs tr r H IH
+                 | t rest s cl last outs | t rest s cl last e outs s' nc tr r E H IH
+                 | t rest s cl last e outs s' nc tr r E H IH
+                 | t rest s cl last e outs s' E | t rest s cl last e outs s' E ];
+    intros Hr; cbn [outs_of_trace map].
+  - constructor.
+  - contradiction.
+  - constructor. now apply IH.
+  - constructor.
+  - eapply Ex_same; [eassumption|now apply IH].
+  - eapply Ex_next; [eassumption|now apply IH].
+  - eapply Ex_dont; eassumption.
+  - eapply Ex_ignore; eassumption.
+Qed.
+
+Lemma fiber_canonical_outs p idem cl0 plan outs tr r :
+  fiber p idem cl0 plan outs = (tr, r) -> r <> RPending ->
+  fiber p idem cl0 plan (outs_of_trace tr) = (tr, r).
+Proof.
+  intros H Hr. apply fiber_Exec. apply fiber_Exec in H. eapply Exec_canonical_outs; eassumption.
+Qed.
